@@ -172,7 +172,11 @@ def _pchip_derivatives(
     h_l, h_r = h[:-1], h[1:]
 
     mask_same_sign = (delta_l * delta_r) > 0  # excludes zeros + sign changes
-    dh = _weighted_harmonic_mean(delta_l, delta_r, h_l, h_r)
+    # Keep zero secants out of the harmonic mean: the masked-out branch of
+    # torch.where would otherwise propagate 0 * inf = nan gradients.
+    safe_l = torch.where(mask_same_sign, delta_l, torch.ones_like(delta_l))
+    safe_r = torch.where(mask_same_sign, delta_r, torch.ones_like(delta_r))
+    dh = _weighted_harmonic_mean(safe_l, safe_r, h_l, h_r)
     d[1:-1] = torch.where(mask_same_sign, dh, torch.zeros_like(dh))
 
     # Endpoints (one-sided + limiter)
